@@ -3,10 +3,11 @@
 EXTENDS Stake, Json, TLC, TraceLib
 CONSTANT KNOWN
 Trace == ndJsonDeserialize("trace.ndjson")
-VARIABLES l, viol, hist, disp
-tvars == <<l, viol, hist, disp, svars>>
+VARIABLES l, viol, hist, disp,
+          slashed   \* inferred: a validator has been slashed for an infraction in this history (a share is no longer worth one token)
+tvars == <<l, viol, hist, disp, slashed, svars>>
 Range(s) == { s[i] : i \in DOMAIN s }
-Init == l = 1 /\ viol = {} /\ hist = 0 /\ disp = <<>> /\ ledB = Zero /\ ledN = Zero /\ poolB = Zero /\ poolN = Zero
+Init == l = 1 /\ viol = {} /\ hist = 0 /\ disp = <<>> /\ slashed = FALSE /\ ledB = Zero /\ ledN = Zero /\ poolB = Zero /\ poolN = Zero
 
 Rec(d, f) == IF f \in DOMAIN d THEN d[f] ELSE [total |-> [neg |-> FALSE, mag |-> Zero], origins |-> <<>>]
 Entries(ds) == LET f == [i \in DOMAIN ds |-> Len(Rec(ds[i], "escrow").origins) + Len(Rec(ds[i], "feestake").origins)]
@@ -36,7 +37,15 @@ Check(e) ==
         ELSE IF ~e.ok THEN (IF InLockStep THEN {} ELSE {"RejectedMessageMovesNoStake"})
         ELSE IF taking THEN
                (IF (ledB' ++ ledN') \preceq Ledger /\ Take(Ledger -- (ledB' ++ ledN')) THEN {} ELSE {"TakenLeavesLedgerAndPoolsEqually"})
-               \cup (IF (ledB' ++ ledN') \preceq Ledger /\ TakenByRecords(disp, ds) = Ledger -- (ledB' ++ ledN') THEN {} ELSE {"PerBackerRecordSumsToTaken"})
+               \* (Dev_F29, open: once a validator has been slashed a share is worth less than a token; taking N tokens from a
+               \*  delegation with it removes the shares for N and gets up to one unit less, while the records keep N.
+               \*  Identity: a validator was slashed earlier in this history and the records exceed what left the ledger by
+               \*  at most one unit per record entry.)
+               \cup (IF (ledB' ++ ledN') \preceq Ledger /\ TakenByRecords(disp, ds) = Ledger -- (ledB' ++ ledN') THEN {}
+                     ELSE {IF "F-29" \in KNOWN /\ slashed /\ (ledB' ++ ledN') \preceq Ledger
+                              /\ (Ledger -- (ledB' ++ ledN')) \preceq TakenByRecords(disp, ds)
+                              /\ (TakenByRecords(disp, ds) -- (Ledger -- (ledB' ++ ledN'))) \preceq N(Entries(ds))
+                           THEN "KNOWN:F-29" ELSE "PerBackerRecordSumsToTaken"})
         ELSE IF returning THEN (IF PutBack(k) THEN {} ELSE {"PutBackEntersBothEqually"})
         ELSE (IF InLockStep THEN {} ELSE {"OtherOperationsKeepLockStep_" \o e.ev}))
   \cup (IF ds = disp \/ RecordsOk(ds) THEN {} ELSE {"EscrowRecordOriginsSumToTotal"})
@@ -50,6 +59,7 @@ Step ==
         /\ ledB' = st.bondedtok /\ ledN' = st.notbondedtok ++ st.unbonding
         /\ poolB' = st.poolbonded /\ poolN' = st.poolnotbonded
         /\ disp' = e.post.dispute.disputes
+        /\ slashed' = ((~reset /\ slashed) \/ (e.ev = "ValSlash" /\ e.ok))
         /\ viol' = IF reset THEN viol ELSE AddViol(viol, l, Check(e))
         /\ l' = l + 1
 Spec == Init /\ [][Step]_tvars
